@@ -21,6 +21,7 @@ import (
 	"fmt"
 	"io/ioutil"
 	"net/http"
+	"sync"
 
 	"github.com/Shopify/sarama"
 	"github.com/megaease/easegress/pkg/context"
@@ -59,6 +60,13 @@ type (
 		producer sarama.AsyncProducer
 		done     chan struct{}
 		header   string
+
+		// mu guards closed. Handle holds the read lock while it hands a message
+		// to the producer, Close takes the write lock before it lets the
+		// producer shut down, so that a request still running on a closed
+		// (superseded) generation never sends on the producer's closed input.
+		mu     sync.RWMutex
+		closed bool
 	}
 )
 
@@ -131,6 +139,10 @@ func (k *Kafka) Inherit(previousGeneration filters.Filter) {
 
 // Close close Kafka
 func (k *Kafka) Close() {
+	k.mu.Lock()
+	k.closed = true
+	k.mu.Unlock()
+
 	close(k.done)
 }
 
@@ -163,6 +175,14 @@ func (k *Kafka) Handle(ctx *context.Context) (result string) {
 	msg := &sarama.ProducerMessage{
 		Topic: topic,
 		Value: sarama.ByteEncoder(body),
+	}
+
+	k.mu.RLock()
+	defer k.mu.RUnlock()
+	if k.closed {
+		// The filter was closed (e.g. superseded by a new generation), its
+		// producer is shutting down: the message cannot be delivered.
+		return resultParseErr
 	}
 	k.producer.Input() <- msg
 	return ""
